@@ -72,6 +72,10 @@ def gen_job(verif_seed, tier, index):
             op = dict(base)
             op["listdir_perm"] = e.getrandbits(30)
             members.append({"dim": "listdir", "hashseed": e.choice(histgen.PALETTE), "ops": [op], "observe": 0})
+        mixed = histgen.lib_mixed_op(g, base)
+        if mixed is not None:
+            # earlier call over the SAME library and name mixing the base's block with another block
+            members.append({"dim": "history", "hashseed": e.choice(histgen.PALETTE), "ops": [mixed, base], "observe": 1})
         for _ in range(2):
             hist = _history(g, None, None)
             # at least one earlier call over a DIFFERENT shipped library (state that leaks between calls shows here)
